@@ -14,5 +14,5 @@ def main(tier, seed, replay):
         return ck.finish()
     memcheck.run(ck, "C11", tier, seed, replay)
     if not replay:
-        conccheck.run(ck, "secret", tier, seed, None, n_quick=300, n_thorough=3000)
+        conccheck.run(ck, "secret", tier, seed, None, n_quick=900, n_thorough=9000)
     return ck.finish()
